@@ -90,7 +90,11 @@ def default_quantity(cls_name, attr):
 
 
 def Q(val):
-    m, unit = val
+    """[m, unit] or [m, unit, [source name, source link]] -> SourceValue"""
+    m, unit = val[0], val[1]
+    if len(val) > 2 and val[2]:
+        from efootprint.abstract_modeling_classes.explainable_object_base_class import Source
+        return SourceValue(m * u(unit), Source(val[2][0], val[2][1]))
     return SourceValue(m * u(unit))
 
 
